@@ -55,8 +55,9 @@ open MlModel.Queue
 variable {F : Nat → Option (List Nat)}
 
 /-- an acceptable end of the caller's iteration: never `queue.Empty`; a `StopIteration` only from an output queue that
-is exhausted without recorded failure -/
-def OKR (s : Shared) (r : Raise) : Prop := r ≠ .empty ∧ (r.isErr = false → s.exc = none ∧ s.exhausted = true)
+is exhausted without recorded failure; an error only when a failure is recorded -/
+def OKR (s : Shared) (r : Raise) : Prop :=
+  r ≠ .empty ∧ (r.isErr = false → s.exc = none ∧ s.exhausted = true) ∧ (r.isErr = true → s.exc.isSome = true)
 
 /-- what holds for the caller `t0` (output queue state `s`) while it has not stopped early -/
 structure FSt (s : Shared) (t0 : Th) : Prop where
@@ -184,7 +185,8 @@ theorem fst_iter {c : Cfg} {t : Th} {alt : Bool} {l : String} {s2' : Shared} {b'
   have hsr : s2'.stopRequested = false := by rw [e1 hne.1]; exact f.nostop
   have hex : s2'.exc = c.s2.exc := e2 hne.1 hne.2.1 hne.2.2
   have hmono : ∀ r, OKR c.s2 r → OKR s2' r := fun r o =>
-    ⟨o.1, fun hr => ⟨by rw [hex]; exact (o.2 hr).1, (sticky_of_stepThread hst).2.2 (o.2 hr).2⟩⟩
+    ⟨o.1, fun hr => ⟨by rw [hex]; exact (o.2.1 hr).1, (sticky_of_stepThread hst).2.2 (o.2.1 hr).2⟩,
+      fun hr => by rw [hex]; exact o.2.2 hr⟩
   have hprog := stepThread_prog hst
   obtain ⟨-, -, -, c4, -, c6, -⟩ := stepThread_close l s2' b' hst htok hto
   rcases afterIter_cases c t.b.pc s2' { t with b := b' } with ⟨hb, e⟩ | e | ⟨hb, e⟩
@@ -209,7 +211,7 @@ theorem fst_iter {c : Cfg} {t : Th} {alt : Bool} {l : String} {s2' : Shared} {b'
       rcases c4 ha with ⟨h1, h2⟩ | h2
       · rw [h2]; exact hmono _ (f.armed h1)
       · rw [h2]
-        refine ⟨final_ne_empty _, fun hr => ⟨?_, hA ha⟩⟩
+        refine ⟨final_ne_empty _, fun hr => ⟨?_, hA ha⟩, fun hr => by rw [final_isErr] at hr; exact hr⟩
         rw [final_isErr] at hr
         cases hx : s2'.exc with
         | none => rfl
@@ -330,8 +332,9 @@ theorem fs_step {c c' : Cfg} {tid : Tid} {alt : Bool} {lbl : String} (hg : Good 
       rw [hths, List.getElem?_set_ne h0] at ht0'; exact ht0'
     have f := hfs t0' ht0 hearly
     obtain ⟨r1, r2, r3⟩ := s2_frame hg h (fun u hu hur => absurd ((hg.inv.role0 tid u hu).mp hur) h0)
+    have hstk := (reachable_sticky (Reachable.step Reachable.init h)).2.1
     have hmono : ∀ r, OKR c.s2 r → OKR c'.s2 r := fun r o =>
-      ⟨o.1, fun hr => ⟨r3 f.nostop (o.2 hr).1 (o.2 hr).2, r2 (o.2 hr).2⟩⟩
+      ⟨o.1, fun hr => ⟨r3 f.nostop (o.2.1 hr).1 (o.2.1 hr).2, r2 (o.2.1 hr).2⟩, fun hr => hstk (o.2.2 hr)⟩
     exact ⟨by rw [r1]; exact f.nostop, f.kind, f.c1, f.c2, fun ha => hmono _ (f.armed ha),
       fun hc => let ⟨r, e, o⟩ := f.out hc; ⟨r, e, hmono _ o⟩⟩
 
@@ -347,5 +350,61 @@ theorem fs_reachable {c0 c : Cfg} (h0 : Good c0) (hf : FS c0) (h : Reachable F c
   induction h with
   | init => exact hf
   | step hr hs ih => exact fs_step (good_reachable h0 hr) (good_reachable h0 (.step hr hs)) hs ih
+
+
+/-! ### without `num_steps` the caller never stops early -/
+
+theorem early_step {c c' : Cfg} {tid : Tid} {alt : Bool} {lbl : String} (hg : Good c) (hns : c.numSteps = none)
+    (h : step F c tid alt = some (lbl, c')) (he : ∀ t0, c.ths[0]? = some t0 → t0.early = false) :
+    ∀ t0, c'.ths[0]? = some t0 → t0.early = false := by
+  intro t0' ht0'
+  by_cases h0 : tid = 0
+  · subst h0
+    obtain ⟨t, ht, hsh⟩ := step_shape h
+    have hr : t.role = .cons := (hg.inv.role0 0 t ht).mpr rfl
+    have he0 := he t ht
+    have hlt : 0 < c.ths.length := (List.getElem?_eq_some_iff.mp ht).1
+    have ext : ∀ {u : Th} {c'' : Cfg}, c''.ths = c.ths.set 0 u → c''.ths[0]? = some t0' → t0' = u := by
+      intro u c'' e1 e2
+      rw [e1] at e2
+      simpa [hlt] using e2.symm
+    rcases hsh with ⟨-, hsh⟩ | ⟨hr1, -⟩ | ⟨hr2, -⟩
+    · cases hsh with
+      | loc t' ns _ hor hc' =>
+        subst hc'
+        obtain rfl := ext rfl ht0'
+        rcases hor with rfl | ⟨-, -, e3, -⟩
+        · unfold beginIter; simp [hns, he0]
+        · rw [e3]; exact he0
+      | iter l s2' b' _ _ hc' =>
+        subst hc'
+        obtain rfl := ext rfl ht0'
+        unfold afterIter
+        simp only [hns]
+        (repeat' split) <;> exact he0
+      | stopping l s2' b' t' _ _ hor hc' =>
+        subst hc'
+        obtain rfl := ext rfl ht0'
+        rcases hor with rfl | rfl | rfl <;> exact he0
+      | upstop l s1' a' _ _ hc' =>
+        subst hc'
+        obtain rfl := ext rfl ht0'
+        exact he0
+    · rw [hr] at hr1; cases hr1
+    · rw [hr] at hr2; cases hr2
+  · obtain ⟨t, t', ht, hths, -⟩ := step_set h
+    rw [hths, List.getElem?_set_ne h0] at ht0'
+    exact he t0' ht0'
+
+theorem early_reachable {cap1 cap2 bm1 bm2 mw : Nat} {fwd ff : Bool} {inputs : List InSpec} {gens : List Nat} {c : Cfg}
+    (h : Reachable F (initF cap1 cap2 bm1 bm2 mw none fwd ff inputs gens) c) :
+    ∀ t0, c.ths[0]? = some t0 → t0.early = false := by
+  have h0 := good_initF cap1 cap2 bm1 bm2 mw none fwd ff inputs gens
+  induction h with
+  | init =>
+    intro t0 ht0
+    simp only [initF, init, List.getElem?_cons_zero, Option.some.injEq] at ht0
+    subst ht0; rfl
+  | step hr hs ih => exact early_step (good_reachable h0 hr) ((reachable_static hr).ns.trans rfl) hs ih
 
 end MlModel.Piter2
